@@ -532,3 +532,180 @@ def run(ctx):
             if ans != impl:
                 ctx.disagree("dsf container (total model)", desc, model=ans[:200], impl=impl[:200])
     return ncases
+
+
+# ---------------------------------------------------------------------------------------------------
+# file-operation level (C19 / C06): the FileM programs `saveEntry` / `deleteEntry` of
+# lean/MutagenModel/Model/Container/DsfM.lean against the real code on fault-injecting, capacity-limited file objects
+
+def _small_layouts(rng):
+    """well-formed small files, and a few damaged ones that steer the header parser into its other branches"""
+    out = []
+    for n in (0, 1, 17):
+        for tag_n in (None, 10, 11, 45, 300):
+            lay = dict(fmt=fmt_chunk(rng), data=b"data" + q(12 + n) + rbytes(rng, n), tag=b"")
+            if tag_n is not None:
+                body = tag_n - 10
+                lay["tag"] = b"ID3" + bytes([rng.choice([3, 4]), 0, 0]) + syncsafe(body) + rbytes(rng, min(body, 8)) + b"\0" * (body - min(body, 8))
+            out.append(("plain", render(lay), lay))
+    base = dict(fmt=fmt_chunk(rng), data=b"data" + q(12 + 5) + rbytes(rng, 5), tag=b"")
+    for name, tag in [("ext24", b"ID3\x04\x00\x40" + syncsafe(12) + bytes([0, 0, 0, 6, 1, 0, 0, 0, 0, 0, 0, 0])),
+                      ("ext23", b"ID3\x03\x00\x40" + syncsafe(12) + bytes([0, 0, 0, 2, 1, 0, 0, 0, 0, 0, 0, 0])),
+                      ("ext-frameid", b"ID3\x04\x00\x40" + syncsafe(12) + b"TIT2" + bytes(8)),
+                      ("ext-short", b"ID3\x04\x00\x40" + syncsafe(12) + bytes([0, 0, 0, 100, 1, 0])),
+                      ("bad-version", b"ID3\x07\x00\x00" + syncsafe(3) + b"abc"),
+                      ("no-id3", b"junkjunkjunkjunk"),
+                      ("tag-short", b"ID3\x04\x00")]:
+        out.append((name, render(dict(base, tag=tag)), None))
+    full = render(dict(base, tag=b""))
+    out.append(("junk-after", full + b"xyz" * 5, None))
+    out.append(("truncated", full[:60], None))
+    out.append(("ptr-behind", full[:20] + q(len(full) + 9) + full[28:], None))
+    return out
+
+
+def _outcome(k, r):
+    if k == "ok":
+        return "ok"
+    return classify(r)
+
+
+def _state(f, head):
+    return "%s data=%s pos=%d log=%s" % (head, hx(f.getvalue()), f.pos(), ",".join(f.log) or "-")
+
+
+def _cmp(ctx, what, desc, model, impl):
+    """outcome, bytes left and file position must agree; the call log too, unless it has the relative seek of the
+    extended-header branch (logged by its offset on the Python side)"""
+    ctx.traces_validated += 1
+    m, i = model.split(" log=")[0], impl.split(" log=")[0]
+    if m != i or ("s-" not in impl and model != impl):
+        ctx.disagree(what, desc, model=model[-400:] if m == i else m[:300], impl=impl[-400:] if m == i else i[:300])
+
+
+def run_faults(ctx):
+    """real mutagen on FaultFile vs `dsf op=savem|deletem` for layouts x capacities x fault indices x short reads;
+    returns the number of cases"""
+    from fobj import FaultFile
+    from mutagen import dsf, id3 as I
+    from mutagen.id3._tags import ID3SaveConfig
+    import warnings
+    rng = ctx.rng
+    layouts = _small_layouts(rng)
+    if ctx.quick:
+        layouts = rng.sample(layouts, 8)
+    reqs = []
+    ncases = 0
+    for kind, data, lay in layouts:
+        # ---- save
+        for frames_text, pad in [("x", "0"), ("x" * 40, "keep"), ("", "7"), ("y" * 300, "300")][:2 if ctx.quick else 4]:
+            tags = dsf._DSFID3()
+            if frames_text:
+                tags.add(I.TIT2(encoding=3, text=[frames_text]))
+            vmaj = rng.choice([3, 4])
+            frames = bytes(tags._write(ID3SaveConfig(vmaj, "/")))
+
+            def cb(info, pad=pad):
+                return max(info.padding, 0) if pad == "keep" else int(pad)
+
+            def go(f):
+                return timed(lambda: tags.save(f, v2_version=vmaj, padding=cb), 20)
+            ref = FaultFile(data)
+            k0, r0 = go(ref)
+            base = "dsf op=savem data=%s vmaj=%d frames=%s ans=%s" % (hx(data), vmaj, hx(frames), pad)
+            desc0 = dict(kind=kind, op="save", pad=pad, frames_len=len(frames), data=hx(data) if len(data) < 700 else "len=%d" % len(data))
+            reqs.append((base, _state(ref, _outcome(k0, r0)), dict(desc0, env="clean")))
+            ncases += 1
+            n = ref.calls
+            growth = max(0, len(ref.getvalue()) - len(data)) if k0 == "ok" else 0
+            plans = [dict(fail_at=i) for i in range(n)]
+            reads = [(i, int(l[1:])) for i, l in enumerate(ref.log) if l[0] == "r"]
+            for i, want in reads:
+                for short in sorted({0, 1, want // 2}):
+                    if short < want:
+                        plans.append(dict(short=(i, short)))
+            # (a write behind the end of the file that hits ENOSPC: FileM's `fwrite` zero-fills the gap, FaultFile does
+            # not - a corner of the shared file model, left out)
+            if growth and kind != "ptr-behind":
+                rs = range(growth + 1) if growth <= 48 else sorted(set(rng.sample(range(growth + 1), 24)) | {0, 1, growth - 1, growth})
+                for r in rs:
+                    for leak in (0, 1, 5, 10 ** 6):
+                        plans.append(dict(cap=len(data) + r, leak=leak))
+                plans.append(dict(cap=max(0, len(data) - 3), leak=2))
+            if ctx.quick and len(plans) > 60:
+                plans = rng.sample(plans, 60)
+            for p in plans:
+                f = FaultFile(data, **p)
+                k, r = go(f)
+                if k == "hang":
+                    ctx.violation("dsf:save:hang", "did not finish", dict(desc0, env=p)); continue
+                line = base + ("" if "fail_at" not in p else " fail=%d:io" % p["fail_at"]) + \
+                    ("" if "short" not in p else " short=%d:%d" % p["short"]) + \
+                    ("" if "cap" not in p else " cap=%d leak=%d" % (p["cap"], p["leak"]))
+                desc = dict(desc0, env={a: b for a, b in p.items()})
+                reqs.append((line, _state(f, _outcome(k, r)), desc))
+                ncases += 1
+                ctx.case(key=("dsf-faults", kind, "save", pad, repr(sorted(p.items()))), nontrivial=True, modelled=True)
+                ctx.hist["dsf-faults:save:" + _outcome(k, r)] += 1
+                ctx.hist["dsf-faults:env:" + ("cap" if "cap" in p else "short" if "short" in p else "fail")] += 1
+                # the statements: C06 - only MutagenError (or verify_fileobj's ValueError at the first two calls);
+                # C19 - on ENOSPC everything in front of the metadata pointer except the pointer field itself is untouched
+                out = f.getvalue()
+                if k == "exc" and classify(r) != "err mutagen" and not (classify(r) == "err value" and p.get("fail_at") in (0, 1)):
+                    ctx.violation("dsf:save:escape:" + type(r).__name__, "%s escaped from _DSFID3.save" % type(r).__name__, desc)
+                if lay is not None and "cap" in p and k == "exc":
+                    pos = 28 + len(lay["fmt"]) + len(lay["data"])
+                    if out[:20] != data[:20] or out[28:pos] != data[28:pos]:
+                        ctx.violation("dsf:save:enospc-payload", "after ENOSPC the chunks in front of the tag are not what they were", desc)
+                    if lay["tag"] and p["leak"] == 0 and out != data:
+                        ctx.violation("dsf:save:enospc-not-identical", "ENOSPC without a partial write, existing tag: the file changed", desc)
+                if lay is not None and k == "ok" and "short" not in p:
+                    if strict_parse(out) is None:
+                        ctx.violation("dsf:save:ok-but-incomplete", "save returned normally, the file is not a well-formed DSF file", desc)
+        # ---- delete
+        for method in (False, True):
+            def god(f, method=method):
+                if method:
+                    with warnings.catch_warnings():
+                        warnings.simplefilter("ignore")
+                        inst = dsf.DSF()
+                    return timed(lambda: inst.delete(f), 20)
+                return timed(lambda: dsf.delete(f), 20)
+            ref = FaultFile(data)
+            k0, r0 = god(ref)
+            base = "dsf op=deletem data=%s method=%d" % (hx(data), int(method))
+            desc0 = dict(kind=kind, op="delete", method=method, data=hx(data) if len(data) < 700 else "len=%d" % len(data))
+            reqs.append((base, _state(ref, _outcome(k0, r0)), dict(desc0, env="clean")))
+            ncases += 1
+            plans = [dict(fail_at=i) for i in range(ref.calls)]
+            for i, l in enumerate(ref.log):
+                if l[0] == "r" and int(l[1:]) > 0:
+                    for short in sorted({0, 1, int(l[1:]) // 2}):
+                        plans.append(dict(short=(i, short)))
+            plans.append(dict(cap=len(data), leak=3))
+            plans.append(dict(cap=10, leak=3))
+            if ctx.quick and len(plans) > 25:
+                plans = rng.sample(plans, 25)
+            for p in plans:
+                f = FaultFile(data, **p)
+                k, r = god(f)
+                line = base + ("" if "fail_at" not in p else " fail=%d:io" % p["fail_at"]) + \
+                    ("" if "short" not in p else " short=%d:%d" % p["short"]) + \
+                    ("" if "cap" not in p else " cap=%d leak=%d" % (p["cap"], p["leak"]))
+                desc = dict(desc0, env={a: b for a, b in p.items()})
+                reqs.append((line, _state(f, _outcome(k, r)), desc))
+                ncases += 1
+                ctx.case(key=("dsf-faults", kind, "delete", method, repr(sorted(p.items()))), nontrivial=True, modelled=True)
+                ctx.hist["dsf-faults:delete:" + _outcome(k, r)] += 1
+                if k == "exc" and classify(r) != "err mutagen" and not (classify(r) == "err value" and p.get("fail_at", 9) < (4 if method else 2)):
+                    ctx.violation("dsf:delete:escape:" + type(r).__name__, "%s escaped from dsf.delete" % type(r).__name__, desc)
+    answers = ask_model(ctx, [r[0] for r in reqs]) if reqs else None
+    if answers is None:
+        ctx.notes.append("dsf_tie.run_faults: model driver unavailable, tie skipped")
+        return ncases
+    if any(a == "bad-op" for a in answers):
+        ctx.notes.append("dsf_tie.run_faults: the driver does not know `dsf op=savem` yet; tie skipped")
+        return ncases
+    for (line, impl, desc), ans in zip(reqs, answers):
+        _cmp(ctx, "dsf file operations", desc, ans, impl)
+    return ncases
